@@ -1,6 +1,7 @@
 import GoomVerif.Lemmas.C15L
 import GoomVerif.Gen.Jmp386
 import GoomVerif.Gen.JmpIfaceAmd64
+import GoomVerif.Gen.IfaceConst
 /-!
 # C15 — emitted jump sequences transfer control to exactly the requested address
 
@@ -31,6 +32,14 @@ theorem amd64_stub (dx : BitVec 64) (m : X86.Mach) :
     X86.exec (Gen.IfaceAmd64.jmpWithRdx dx) m = some { m with rip := m.mem64 dx, rdx := dx } := by
   simp [Gen.IfaceAmd64.jmpWithRdx, X86.exec, bytes64]
 
+/-- make_method.go:12/23/40: every stub is written into a slot of `interfaceJumpDataLen` bytes handed out back to back
+    by `stub.Acquire`, and `stub.Write` has no length check — the emitted stub must fit its slot or the next stub
+    overwrites its tail.  amd64: 12 bytes. -/
+theorem amd64_stub_fits_slot (dx : BitVec 64) :
+    (Gen.IfaceAmd64.jmpWithRdx dx).length = 12 ∧
+    (Gen.IfaceAmd64.jmpWithRdx dx).length ≤ Gen.IfaceConst.interfaceJumpDataLen := by
+  simp [Gen.IfaceAmd64.jmpWithRdx, Gen.IfaceConst.interfaceJumpDataLen]
+
 /-- the relative form is chosen exactly when the displacement that is actually encoded, `to-(from+5)`,
     fits the signed 32-bit field -/
 theorem relative_spec (from_ to : BitVec 64) :
@@ -40,6 +49,33 @@ theorem relative_spec (from_ to : BitVec 64) :
   have h1 : (0xffffffff80000000#64).toInt = -(2:Int)^31 := by decide
   have h2 : (0x7fffffff#64).toInt = 2^31 - 1 := by decide
   rw [h1, h2]
+
+/-- `relative` characterised without reference to its own arithmetic: the relative form is chosen exactly when
+    *some* value `d` of the signed 32-bit field exists with which a 5-byte jump placed at `from_` reaches `to`
+    (`to = from_ + 5 + sext d` in 64-bit address arithmetic). -/
+theorem relative_iff_reachable (from_ to : BitVec 64) :
+    Gen.Amd64.relative from_ to = true ↔ ∃ d : BitVec 32, to = from_ + 5#64 + BitVec.signExtend 64 d := by
+  rw [relative_spec]
+  constructor
+  · intro hs
+    refine ⟨BitVec.setWidth 32 (to - from_ - 5#64), ?_⟩
+    apply BitVec.eq_of_toNat_eq
+    simp only [BitVec.toInt_eq_toNat_cond, BitVec.toNat_sub, BitVec.toNat_add, BitVec.toNat_ofNat, sext_toNat,
+      BitVec.toNat_setWidth] at hs ⊢
+    have := from_.isLt
+    have := to.isLt
+    split at hs <;> split <;> omega
+  · rintro ⟨d, rfl⟩
+    have hd := d.isLt
+    have e : from_ + 5#64 + BitVec.signExtend 64 d - from_ - 5#64 = BitVec.signExtend 64 d := by
+      apply BitVec.eq_of_toNat_eq
+      simp only [BitVec.toNat_sub, BitVec.toNat_add, BitVec.toNat_ofNat]
+      have := from_.isLt
+      have := (BitVec.signExtend 64 d).isLt
+      omega
+    rw [e]
+    simp only [BitVec.toInt_eq_toNat_cond, sext_toNat]
+    split <;> split <;> omega
 
 /-- whenever the relative (5-byte) form is chosen it lands exactly on `to` -/
 theorem amd64_origin_rel (from_ to : BitVec 64) (m : X86.Mach) (h : Gen.Amd64.relative from_ to = true) :
@@ -64,10 +100,90 @@ theorem amd64_origin_abs (from_ to : BitVec 64) (m : X86.Mach) (h : Gen.Amd64.re
 example : Gen.Amd64.relative 0x401000#64 0x455000#64 = true ∧
           Gen.Amd64.relative 0x7f0000001000#64 0x401000#64 = false := by decide
 
+/-! ### Return from a trampoline (clause "…to return from a trampoline transfer control to exactly the intended destination")
+
+`jmpToOriginFunctionValue from_ to` is the jump **back into code**: `to = origin + n` is the address of the first origin
+instruction that was not relocated.  "Exactly the intended destination" therefore means `RIP = to` — not `RIP = [to]` —
+and, since the jump sits in the middle of the origin function's instruction stream, no register may change. -/
+
+/-- The clause at full strength.  **Not a theorem today**: it fails for the absolute form (defect F5,
+    `Findings/C15F5.lean : not_returnExact`), see `return_exact_partial` for the half that holds. -/
+def ReturnExact : Prop :=
+  ∀ (from_ to : BitVec 64) (m : X86.Mach),
+    X86.exec (Gen.Amd64.jmpToOriginFunctionValue from_ to) { m with rip := from_ } = some { m with rip := to }
+
+/-- The part of `ReturnExact` that holds: whenever the relative form is chosen (`relative_spec`: the displacement
+    `to-(from+5)` fits rel32), control arrives at exactly `to`, RDX and memory untouched.  Missing for the full clause:
+    the case `relative from_ to = false`, where the emitted `MOV RDX,to; JMP [RDX]` lands on `[to]` and clobbers RDX
+    (`amd64_origin_abs` is the truthful description of those bytes; known finding `F5-absolute-jump-back`). -/
+theorem return_exact_partial (from_ to : BitVec 64) (m : X86.Mach) (h : Gen.Amd64.relative from_ to = true) :
+    ∃ m', X86.exec (Gen.Amd64.jmpToOriginFunctionValue from_ to) { m with rip := from_ } = some m' ∧
+      m'.rip = to ∧ m'.rdx = m.rdx ∧ m'.mem64 = m.mem64 :=
+  ⟨_, amd64_origin_rel from_ to m h, rfl, rfl, rfl⟩
+
+/-- non-vacuity of `return_exact_partial`: a trampoline 0x2f000 bytes after the origin (the usual situation) -/
+example : Gen.Amd64.relative (0x430000#64 + 18#64) (0x401000#64 + 14#64) = true := by decide
+
+/-- A rel32 jump is position dependent: the bytes emitted for the position `emitFor`, when they execute at `from_`,
+    land `from_ - emitFor` bytes past `to`.  This is what goes wrong when the `from` argument handed to the emitter is
+    not the address the bytes end up at (wrong length added to the trampoline address; an image assembled for one
+    trampoline copied into another). -/
+theorem amd64_origin_rel_displaced (emitFor from_ to : BitVec 64) (m : X86.Mach)
+    (h : Gen.Amd64.relative emitFor to = true) :
+    X86.exec (Gen.Amd64.jmpToOriginFunctionValue emitFor to) { m with rip := from_ } =
+      some { m with rip := to + (from_ - emitFor) } := by
+  have hrel := amd64_origin_rel emitFor to m h
+  obtain ⟨d, hd⟩ := origin_rel_bytes emitFor to h
+  rw [hd, exec_e9] at hrel ⊢
+  have e : emitFor + 5 + BitVec.signExtend 64 d = to := by
+    have := congrArg (fun o => o.map X86.Mach.rip) hrel
+    simpa using this
+  simp only [shift_start emitFor from_, e]
+
+/-- fix_origin_amd64.go:57–61, the call site: the image written at `tramp` is `fixed ++ jmpToOriginFunctionValue
+    (tramp + len fixed) (origin + n)`.  The placement obligation is explicit: the jump is the part of the image after
+    `fixed.length` bytes, so it executes at `tramp + fixed.length`, which is exactly the `from` argument; then it lands on
+    `origin + n`.  (The probe observes `tramp`, `fixed.length`, `origin`, `n` and the bytes in memory on every run.) -/
+theorem jump_back_site (tramp origin : BitVec 64) (fixed : List (BitVec 8)) (n : Nat) (m : X86.Mach)
+    (from_ : BitVec 64) (hplace : from_ = tramp + BitVec.ofNat 64 fixed.length)
+    (h : Gen.Amd64.relative from_ (origin + BitVec.ofNat 64 n) = true) :
+    X86.exec ((fixed ++ Gen.Amd64.jmpToOriginFunctionValue (tramp + BitVec.ofNat 64 fixed.length)
+        (origin + BitVec.ofNat 64 n)).drop fixed.length) { m with rip := from_ } =
+      some { m with rip := origin + BitVec.ofNat 64 n } := by
+  subst hplace
+  rw [List.drop_left]
+  exact amd64_origin_rel _ _ m h
+
+/-- …and the obligation is needed: an emitter call with any other `from` (`tramp + k`, `k ≠ fixed.length`; or another
+    trampoline's address) misses `origin + n` by the difference. -/
+theorem jump_back_site_wrong_from (tramp origin wrongFrom : BitVec 64) (fixed : List (BitVec 8)) (n : Nat) (m : X86.Mach)
+    (h : Gen.Amd64.relative wrongFrom (origin + BitVec.ofNat 64 n) = true) :
+    X86.exec ((fixed ++ Gen.Amd64.jmpToOriginFunctionValue wrongFrom (origin + BitVec.ofNat 64 n)).drop fixed.length)
+        { m with rip := tramp + BitVec.ofNat 64 fixed.length } =
+      some { m with rip := origin + BitVec.ofNat 64 n + (tramp + BitVec.ofNat 64 fixed.length - wrongFrom) } := by
+  rw [List.drop_left]
+  exact amd64_origin_rel_displaced _ _ _ m h
+
+/-- non-vacuity of the two site theorems: head of 14 bytes relocated to 18 (one rel8 widened), trampolines A and B -/
+example : Gen.Amd64.relative (0x430000#64 + BitVec.ofNat 64 18) (0x401000#64 + BitVec.ofNat 64 14) = true ∧
+          Gen.Amd64.relative (0x430100#64 + BitVec.ofNat 64 18) (0x401000#64 + BitVec.ofNat 64 14) = true := by decide
+
+/-- the emitted length is 5 (relative) or 12 (absolute): what `len(fixedData)+len(jumpBack)` is compared with the
+    trampoline size in fix_origin_amd64.go:71 -/
+theorem amd64_origin_len (from_ to : BitVec 64) :
+    (Gen.Amd64.jmpToOriginFunctionValue from_ to).length = if Gen.Amd64.relative from_ to then 5 else 12 := by
+  simp only [Gen.Amd64.jmpToOriginFunctionValue]
+  split
+  · split <;> rfl
+  · rfl
+
 /-- 386 form (monkey_386.go): `MOV EDX, to ; JMP [EDX]` -/
 theorem i386_entry (from_ to : BitVec 32) (m : X86.Mach32) :
     X86.exec32 (Gen.I386.jmpToFunctionValue from_ to) m = some { m with edx := to, eip := m.mem32 to } := by
   simp [Gen.I386.jmpToFunctionValue, X86.exec32, bytes32]
+
+theorem i386_entry_len (from_ to : BitVec 32) : (Gen.I386.jmpToFunctionValue from_ to).length = 7 := by
+  simp [Gen.I386.jmpToFunctionValue]
 
 /-! ## arm64 -/
 
@@ -96,6 +212,40 @@ theorem arm64_stub_ctx (ctx a b : BitVec 64) (m : A64.Mach) :
       (∀ r, r ≠ 26 → r ≠ 27 → m'.x r = m.x r) ∧ m'.mem64 = m.mem64 := by
   simp only [Gen.IfaceArm64.jmpWithRdxAndCtx, ifaceMovImm_eq, List.replicate, List.nil_append, List.append_assoc]
   exact arm64_seq ctx m _ _ _ _ _ _ _ _ 27 (by decide) (by decide) (by decide) (by decide)
+
+/-- arm64 stubs are 24 bytes (six instructions) and fit the `interfaceJumpDataLen` slot of make_method.go; the entry
+    jump is 24 bytes too (what `genJumpData` compares with the origin's size). -/
+theorem arm64_stub_fits_slot (dx : BitVec 64) :
+    (Gen.IfaceArm64.jmpWithRdx dx).length = 24 ∧
+    (Gen.IfaceArm64.jmpWithRdx dx).length ≤ Gen.IfaceConst.interfaceJumpDataLen := by
+  obtain ⟨a0, b0, c0, d0, h0⟩ := movImm_len4 2#64 0#64 (dx &&& 0xffff#64)
+  obtain ⟨a1, b1, c1, d1, h1⟩ := movImm_len4 3#64 1#64 (dx >>> 16 &&& 0xffff#64)
+  obtain ⟨a2, b2, c2, d2, h2⟩ := movImm_len4 3#64 2#64 (dx >>> 32 &&& 0xffff#64)
+  obtain ⟨a3, b3, c3, d3, h3⟩ := movImm_len4 3#64 3#64 (dx >>> 48 &&& 0xffff#64)
+  simp [Gen.IfaceArm64.jmpWithRdx, ifaceMovImm_eq, h0, h1, h2, h3, Gen.IfaceConst.interfaceJumpDataLen]
+
+theorem arm64_stub_ctx_fits_slot (ctx a b : BitVec 64) :
+    (Gen.IfaceArm64.jmpWithRdxAndCtx ctx a b).length = 24 ∧
+    (Gen.IfaceArm64.jmpWithRdxAndCtx ctx a b).length ≤ Gen.IfaceConst.interfaceJumpDataLen := by
+  obtain ⟨a0, b0, c0, d0, h0⟩ := movImm_len4 2#64 0#64 (ctx &&& 0xffff#64)
+  obtain ⟨a1, b1, c1, d1, h1⟩ := movImm_len4 3#64 1#64 (ctx >>> 16 &&& 0xffff#64)
+  obtain ⟨a2, b2, c2, d2, h2⟩ := movImm_len4 3#64 2#64 (ctx >>> 32 &&& 0xffff#64)
+  obtain ⟨a3, b3, c3, d3, h3⟩ := movImm_len4 3#64 3#64 (ctx >>> 48 &&& 0xffff#64)
+  simp [Gen.IfaceArm64.jmpWithRdxAndCtx, ifaceMovImm_eq, h0, h1, h2, h3, Gen.IfaceConst.interfaceJumpDataLen]
+
+theorem arm64_entry_len (from_ dx : BitVec 64) : (Gen.Arm64.jmpToFunctionValue from_ dx).length = 24 := by
+  obtain ⟨a0, b0, c0, d0, h0⟩ := movImm_len4 2#64 0#64 (dx &&& 0xffff#64)
+  obtain ⟨a1, b1, c1, d1, h1⟩ := movImm_len4 3#64 1#64 (dx >>> 16 &&& 0xffff#64)
+  obtain ⟨a2, b2, c2, d2, h2⟩ := movImm_len4 3#64 2#64 (dx >>> 32 &&& 0xffff#64)
+  obtain ⟨a3, b3, c3, d3, h3⟩ := movImm_len4 3#64 3#64 (dx >>> 48 &&& 0xffff#64)
+  simp [Gen.Arm64.jmpToFunctionValue, h0, h1, h2, h3]
+
+/-- monkey_arm64.go:50 — "return from a trampoline" does not exist on arm64: `jmpToOriginFunctionValue` is
+    `panic("not support yet")` (and fix_origin_arm64.go panics before reaching it), so the clause has no arm64 instance
+    to prove.  This theorem is the guard for that reading: the day the function is implemented it stops checking, and a
+    landing theorem (+ an `arm64.origin` oracle in checks/C15.py) has to be added in its place. -/
+theorem arm64_origin_unimplemented (from_ to : BitVec 64) :
+    Gen.Arm64.jmpToOriginFunctionValue from_ to = .error "panic" := rfl
 
 /-- field layout of one move-wide instruction (Arm ARM C6.2.191/192): sf=1, opc, 100101, hw, imm16, Rd=26 -/
 theorem arm64_movImm_fields (opc shift val : BitVec 64) (ho : opc.toNat < 4) (hs : shift.toNat < 4)
